@@ -133,9 +133,65 @@ def plan_C12(b, tier, seed):
         t += [B_curve(b, c, seed + k, 2500, "subgroup", 3000) for c in BIG_CURVES for k in range(2)]
     return t
 
-PLANS = {"C03": plan_C03, "C04": plan_C04, "C12": plan_C12, "C01": plan_C01, "C02": plan_C02, "C15": plan_C15}
+def A_poly(b, cfg, mode, deg, maxn, workers=4):
+    return lambda: toy_replay(b, "poly", "MC_Poly", cfg, mode, workers=workers, env_extra={"DEG": str(deg), "MAXN": str(maxn)},
+                              label="A:poly:%s:%s:deg%d:maxn%d" % (cfg, mode, deg, maxn))
+
+def plan_C08(b, tier, seed):
+    if tier == "quick":
+        return [A_poly(b, "f5", "arith", 3, 4, 6), A_poly(b, "f5", "unary", 4, 4), A_poly(b, "f17", "unary", 2, 8), A_poly(b, "f13", "unary", 3, 4),
+                A_poly(b, "f7", "unary", 3, 6), A_poly(b, "f7", "arith", 2, 4, 6)]
+    return [A_poly(b, "f5", "arith", 4, 4, 8), A_poly(b, "f7", "arith", 3, 4, 8), A_poly(b, "f17", "arith", 2, 4, 8), A_poly(b, "f97", "arith", 2, 4, 8),
+            A_poly(b, "f5", "unary", 5, 4), A_poly(b, "f17", "unary", 3, 16, 8), A_poly(b, "f97", "unary", 2, 12, 8), A_poly(b, "f13", "unary", 4, 4),
+            A_poly(b, "f7", "unary", 4, 6), A_poly(b, "f37", "unary", 2, 12, 8)]
+
+def plan_C07(b, tier, seed):
+    if tier == "quick":
+        return [A_poly(b, "f17", "domain", 0, 16), A_poly(b, "f97", "domain", 0, 16), A_poly(b, "f13", "domain", 0, 12), A_poly(b, "f37", "domain", 0, 12),
+                A_poly(b, "f257", "domain", 0, 32, 8), A_poly(b, "f101", "domain", 0, 25)]
+    return [A_poly(b, c, "domain", 0, n, 8) for (c, n) in [("f17", 16), ("f97", 96), ("f13", 12), ("f37", 36), ("f257", 128), ("f101", 100),
+                                                            ("f193", 64), ("f577", 64), ("f12289", 64), ("f18433", 48), ("f40961", 40)]]
+
+def plan_C11(b, tier, seed):
+    t = []
+    if tier == "quick":
+        for c in ("f7", "f11", "f31", "f13", "f17", "f97", "f193", "f257", "f7_2", "f5_2", "f13_2", "f7_3", "f5_4", "f7_6b"):
+            t.append(A_field(b, c, "unary"))
+        t += [A_field(b, "f257", "unary", "f257h"), B_field_exh(b, "f12289"), B_field_exh(b, "f40961")]
+        for c in ("bls12_381_fq", "bls12_381_fr", "bls12_381_fq2", "mnt6_753_fq3", "mnt4_753_fq", "secp256k1_fq", "z1a", "g64h", "m127h"):
+            t.append(B_field(b, c, seed + 7, 1200))
+    else:
+        for c in ("f3", "f7", "f11", "f19", "f23", "f31", "f43", "f5", "f13", "f17", "f29", "f37", "f61", "f97", "f101", "f193", "f257", "f577",
+                  "f3_2", "f7_2", "f11_2", "f19_2", "f5_2", "f13_2", "f17_2", "f7_3", "f5_4", "f13_3", "f19_3", "f13_4", "f7_6b", "f13_6b"):
+            t.append(A_field(b, c, "unary", workers=6))
+        t += [B_field_exh(b, "f%d%s" % (p, h)) for p in (12289, 18433, 40961) for h in ("", "h")]
+        for c in SHIPPED_PRIME + ["bls12_381_fq2", "mnt6_753_fq3"] + zoo_all():
+            t.append(B_field(b, c, seed + 7, 8000, 1800))
+    return t
+
+def plan_C19(b, tier, seed):
+    t = []
+    if tier == "quick":
+        t += [A_field(b, "f13", "arith"), A_field(b, "f13", "arith", "f13h"), A_field(b, "f7_2", "arith"), A_field(b, "f7_3", "unary"), A_field(b, "f7_6", "arith")]
+        t += [A_bigint(b, 1, "arith"), A_bigint(b, 2, "arith")]
+        t += [A_curve(b, c, "arith") for c in ("sw13_0_2", "sw13_1_0", "te13_1_7", "sw_f7_2_a0")]
+        t += [A_poly(b, "f5", "arith", 3, 4, 6)]
+        t += [B_field(b, "bls12_381_fq", seed + 3, 1500), B_field(b, "bls12_381_fq12", seed + 3, 250), B_bigint(b, 4, seed + 3, 3000),
+              B_curve(b, "bls12_381_g1", seed + 3, 600, "group"), B_curve(b, "ed_on_bls12_381", seed + 3, 600, "group")]
+    else:
+        t += plan_C03(b, "quick", seed) + [A_field(b, c, "arith", workers=6) for c in ("f7", "f13", "f31", "f3_2", "f7_2", "f5_2", "f7_6", "f7_6b", "f7_12")]
+        t += [A_bigint(b, n, "arith", 8) for n in (1, 2, 3, 4, 6, 13)] + [A_poly(b, "f5", "arith", 4, 4, 8)]
+        t += [B_field(b, c, seed + 3, 8000, 1800) for c in SHIPPED_PRIME + ["bls12_381_fq2", "bls12_381_fq6", "mnt6_753_fq3"]]
+        t += [B_curve(b, c, seed + 3, 4000, "group", 2400) for c in BIG_CURVES]
+    return t
+
+PLANS = {"C11": plan_C11, "C19": plan_C19, "C07": plan_C07, "C08": plan_C08, "C03": plan_C03, "C04": plan_C04, "C12": plan_C12, "C01": plan_C01, "C02": plan_C02, "C15": plan_C15}
 
 RULES = {
+ "C11": "A: EVERY element of toy fields (p = 3 mod 4: 7,11,31; two-adicity 2..8: 13,17,97,193,257; F_{p^2}, F_{p^3} with configured constants, F_{p^4}, F_{p^6} = 2 over 3) through sqrt / sqrt_in_place (relation: a root is returned exactly for squares and squares back), legendre (Euler criterion by norm descent, checked by TLC against the existence of a root); exhaustive traces over F_12289 and F_40961 (two-adicity 12, 13); B: shipped fields and the zoo (two-adicity up to 47; Goldilocks 32) with squares, non-squares and boundary values",
+ "C19": "A: eq / cmp / hash-consistency / is_zero / is_one on all pairs of toy field and tower elements, of boundary big integers, of curve points in ALL pairs of projective representatives (equality and hashing must not depend on the representative; affine vs projective), of polynomials in dense and sparse form; B: the same queries inside full-size traces where equal values arise along different operation sequences",
+ "C08": "A: PolyMachine over toy prime fields: all ordered pairs of polynomials of degree < DEG x add/sub/mul/div/scaled add/eq in every dense/sparse mix and API variant (operators by value/reference, assign forms, naive and FFT products, the four divide_with_q_and_r mixes); every polynomial x scaling, evaluation, canonical-form conversions, vanishing-polynomial mul/div and evaluate_over_domain / interpolate over every small domain and coset (radix-2, mixed-radix, general), including polynomials longer than the domain. Results are compared as STORED coefficient vectors, so non-canonical results are visible. non-trivial = register changed or a non-zero value returned",
+ "C07": "A: every constructible domain up to MAXN over fields with two-adicity 2..13 and small subgroups 3^k / 5^k: construction for every request 0..MAXN+1 and around the largest subgroup (all three kinds; minimal admissible size or none), generator order, element(i) for all i, elements(), FFT of every unit vector / all-ones / dense vector for EVERY input length 0..n, IFFT, vanishing polynomial and all Lagrange coefficients at every field element (p <= 31) or at in-domain and off-domain samples; four coset offsets",
  "C03": "A: every transition of CurveMachine over toy curves (all ordered pairs of ALL points of the curve - prime-order subgroup for incomplete Edwards curves - x add/sub/eq/sum/batch-normalise; all points x double/negate/conversions), replayed through every projective rescaling of the operands (all of F_q^* for q = 13, 12 spread values otherwise) and every API variant (proj+proj, mixed, affine+affine, iterator sums). B: seeded programs on shipped curves with randomly rescaled registers; raw Jacobian / extended coordinates decoded by the specification. non-trivial = abstract register changed or a value returned",
  "C04": "A: every (k, P) with k in 0..2r+2 and P any point of a toy curve, through mul_bigint (with leading zero limbs), affine mul_bigint, bit streams (with/without leading zeros), scalar-field multiplication, w-NAF w=2..6 with fresh / precomputed / too-short tables, batch_mul for 1,2,31,32,33 scalars and three table sizings. B: boundary scalars (0,1,r-1,r,r+1,2^64-1,2^64N-1,random) on shipped curves, spec computes k.P by its own double-and-add",
  "C12": "A: all points of toy curves with cofactor 1,2,3,4,6,8 (so mostly outside the subgroup): subgroup test vs r.P = O, clear_cofactor vs h.P, mul_by_cofactor, mul_by_cofactor_inv on the subgroup. B: shipped curves with points from arbitrary coordinates; clear_cofactor vs the standardised effective cofactor (BLS12-381 G1: 1-x, G2: h2(3x^2-3)), endomorphism-based subgroup tests vs the definition",
@@ -151,6 +207,14 @@ PREDICATES = {"glv_mul_outside_subgroup": _glv_outside}
 HOOK_COMMITS = []
 NOT_APPLICABLE = {}
 META = {
+ "C11": {"text": "FieldMachine.Sqrt is a relation (some root iff square, root^2 = x, sqrt(0) = 0) and Legendre is Euler's criterion evaluated by norm descent; TLC proves on every toy field that both agree with the existence of a root, explores every element, and the harness replays sqrt, sqrt_in_place and legendre on the real algorithms (p = 3 mod 4 shortcut, Tonelli-Shanks for every two-adicity up to 13 exhaustively, quadratic-extension and cubic-extension algorithms). Full-size traces cover shipped fields.",
+         "note": "Curve coordinate-recovery helpers (get_ys_from_x / get_xs_from_y) are exercised through the C09/C10 decompression checks. Fields without a configured algorithm (Fp6 3-over-2, Fp12) are outside the property."},
+ "C19": {"text": "Eq / Ord / Hash / is_zero / is_one are Query actions of the Field, BigInt, Curve and Poly machines defined as equality / integer order / documented lexicographic order of ABSTRACT values; TLC checks the total-order behaviour implicitly by enumerating all pairs, and the harness evaluates ==, !=, cmp, partial_cmp, <, > and hashing on every pair of representatives.",
+         "note": "Pairing outputs are covered by C06's equality-pattern check."},
+ "C08": {"text": "PolyMachine defines every operator on canonical coefficient sequences over Z_p from first principles (schoolbook product, Euclidean division, Horner evaluation, DFT as a sum, interpolation as the inverse DFT sum); TLC checks ring laws, the division identity and interpolation-inverts-evaluation on the specification itself and emits every transition of the toy models, which the harness replays on DensePolynomial / SparsePolynomial / DenseOrSparsePolynomial / Evaluations in every representation mix.",
+         "note": "Toy fields only for the exhaustive part (the polynomial code is generic over the field; field arithmetic itself is C01). SparsePolynomial::from_coefficients_vec is only fed distinct degrees with non-zero coefficients (it documents that it does not normalise)."},
+ "C07": {"text": "A domain is specified by its defining properties: minimal admissible size for its kind (or none), generator of exactly that order derived from the configured roots, element(i) = h g^i, FFT = evaluation at the elements in order (as a sum), IFFT its inverse, vanishing polynomial X^n - h^n, Lagrange coefficients from the product formula (also at domain points). TLC checks Lagrange/vanishing theorems on the specification and emits every query; the harness replays them on Radix2 / MixedRadix / General domains.",
+         "note": "Sizes up to 128 (toy fields up to 40961); the large-size parallel/compaction code paths are exercised by C14."},
  "C03": {"text": "TLC enumerates every point of each toy curve by brute force, checks that the textbook affine law of the specification is a group law on it (closure, commutativity, associativity, identity, inverse, order h*r) and that the catalogue entry is right, and emits every transition; the real Projective/Affine code is run on every projective representative of the operands. Full-size: traces of shipped curves with raw coordinates validated by the specification's abstraction functions (on-curve and T*Z = X*Y invariants included).",
          "note": "Toy curves cover a=0 / a!=0, cofactors 1..8, 2-torsion, base fields F_p, F_{p^2}, F_{p^3}; complete and incomplete Edwards curves. The abstraction function in the harness uses the library's field inversion (checked by C01/C02)."},
  "C04": {"text": "CurveMachine.Mul is defined as k.P by double-and-add on the specification's own law; TLC explores all (k,P) for k up to 2r+2 on toy curves and the harness requires every multiplication path to produce that point. Full-size traces use boundary scalars including values at and above r and 2^(64N)-1.",
